@@ -7,6 +7,7 @@ import (
 
 	"verif/core"
 	"verif/model"
+	"verif/runner"
 	"verif/theory"
 )
 
@@ -210,6 +211,42 @@ func checkC01(c *core.Ctx) {
 	// user dictionaries: "every chord symbol of the dictionary", "inherited ones included" holds for the
 	// dictionary in force, i.e. with --chord/--attr files loaded: inheritance forests split over several
 	// files in any order, symbols taken over from built-ins, used by name and by display
+	// where the bytes go is none of the music's business: a piece that plays into a pipe plays into /dev/null (the
+	// validity check of a script), into a character device named by -o and into a terminal just the same
+	c.Stream("sinks", c.N(24, 240), func(i int, r *rand.Rand) {
+		p := model.RandPiece(r, model.GenOpts{MinLen: 1, MaxLen: 6, RestProb: 0.2, KeyChanges: true, BassProb: 0.3, MaxDeg: 7})
+		if !p.Effective(model.Flags{}).AllInRange() {
+			return
+		}
+		doc := p.YAML(model.YAMLStyle{})
+		ref := run(c, doc, "write")
+		c.Eval(1)
+		if infra(c, ref) || !ref.OK() {
+			return
+		}
+		var res *runner.Result
+		sink := []string{"> /dev/null", "-o /dev/null", "-o /dev/tty-like (pseudo terminal as stdout is not available: -o /dev/zero)", "> /dev/zero"}[i%4]
+		switch i % 4 {
+		case 0:
+			res = c.Crd.Run(runner.Opt{Stdin: doc, Redirect: ">/dev/null"}, "write")
+		case 1:
+			res = c.Crd.Run(runner.Opt{Stdin: doc}, "write", "-o", "/dev/null")
+		case 2:
+			res = c.Crd.Run(runner.Opt{Stdin: doc}, "write", "--output=/dev/zero")
+		default:
+			res = c.Crd.Run(runner.Opt{Stdin: doc, Redirect: ">/dev/zero"}, "write", "--track", "2")
+		}
+		c.Eval(1)
+		if infra(c, res) {
+			return
+		}
+		if a := abnormal(res); a != "" || !res.OK() {
+			c.Violate("sinks", i, "sinks:"+sink[:2], fmt.Sprintf("crd write %s refuses (or fails on) a piece it plays into a pipe %s", sink, a), withYAML(obs(res), p))
+			return
+		}
+		c.Nontrivial(fmt.Sprintf("sinks%d", i))
+	})
+
 	c.Stream("userdict", c.N(400, 8000), func(i int, r *rand.Rand) {
 		f := genForest(r, fmt.Sprint(i%10))
 		args := writeDictFiles(c, r, f)
